@@ -70,6 +70,24 @@ func NewCall(endpoint string, id *Ident, nonce int64, param interface{}) Call {
 	return c.Resign(id)
 }
 
+// LegacyUpdate is the deprecated payload of vipnode_update (what old agents sign): the pool still
+// accepts a signature over it for the full request.
+type LegacyUpdate struct {
+	Peers       []string `json:"peers"`
+	BlockNumber uint64   `json:"block_number"`
+}
+
+// NewLegacyUpdateCall builds a vipnode_update whose signature is in the deprecated format.
+func NewLegacyUpdateCall(id *Ident, nonce int64, req pool.UpdateRequest) Call {
+	c := Call{Endpoint: "vipnode_update", Method: "vipnode_update", ID: id.NodeID, Nonce: nonce, Param: req}
+	sig, err := cachedSign(id.Key, c.Method, c.ID, c.Nonce, LegacyUpdate{req.Peers, req.BlockNumber})
+	if err != nil {
+		panic(err)
+	}
+	c.Sig = sig
+	return c
+}
+
 // Resign recomputes the signature with signer's key over the call's current components.
 func (c Call) Resign(signer *Ident) Call {
 	sig, err := cachedSign(signer.Key, c.Method, c.ID, c.Nonce, c.args()...)
